@@ -35,7 +35,20 @@ def budget(tier):
 def strategy_(draw, tier):
     mol = draw(st.one_of(gens.mols(tier, wide=True), gens.mols(tier), gens.fam_er(130 if tier == "quick" else 400, wide=True)))
     n = len(mol["atoms"])
-    return {"mol": mol, "order": draw(gens.perms(n)), "post": draw(st.sampled_from(["none", "none", "relabel", "recanon"]))}
+    case = {"mol": mol, "order": draw(gens.perms(n)), "post": draw(st.sampled_from(["none", "none", "relabel", "recanon"]))}
+    # producer: the graph constructor, or one of the readers on an own rendering (explicitly
+    # written defaults such as MASS=0 / zero-valued M lines included)
+    prod = draw(st.sampled_from(["graph", "graph", "graph", "v3000", "v2000"]))
+    case["producer"] = prod
+    if prod == "v3000":
+        from .. import styles
+
+        case["style"] = draw(styles.v3000_styles(allow_exachg=False, allow_stars=False))
+    elif prod == "v2000":
+        from .. import styles
+
+        case["style"] = draw(styles.v2000_styles())
+    return case
 
 
 def strategy(tier):
@@ -45,10 +58,22 @@ def strategy(tier):
 def check(case, stats):
     mol = Mol.from_json(case["mol"])
     n = mol.n
-    from .c01 import post_process
+    from .c01 import molfile_ok, post_process
 
-    g = post_process(mol_to_graph(mol, case["order"]), {"post": case.get("post", "none"), "pi": case["order"]})
-    stats.label("post:" + case.get("post", "none"))
+    prod = case.get("producer", "graph")
+    if prod != "graph" and not molfile_ok(mol, prod):
+        prod = "graph"
+    if prod == "graph":
+        g = post_process(mol_to_graph(mol, case["order"]), {"post": case.get("post", "none"), "pi": case["order"]})
+        stats.label("post:" + case.get("post", "none"))
+    else:
+        from ..lib import graph_from_molfile_text
+        from ..render import render_v2000, render_v3000
+
+        lst = {"order": case["order"]}
+        text = render_v3000(mol, lst, case["style"]) if prod == "v3000" else render_v2000(mol, lst, case["style"])
+        g = call("read", graph_from_molfile_text, text)
+    stats.label("producer:" + prod)
     s = pipeline(g, "first")
     g2 = call("parse", graph_from_tucan, s)
     stats.evaluated()
